@@ -66,8 +66,61 @@ fn parse_back(doc: &[u8]) -> Option<String> {
     got
 }
 
+/// whole statements through the real serializers and parsers: a pool of terms of every kind (IRIs, blank nodes,
+/// literals with xsd:string, datatypes that merely resemble xsd:string, other datatypes, language tags in several
+/// cases, empty lexical forms, quoted triples in subject and object position, nested), every (s, o, g) combination
+/// from the pool: N-Quads and N-Triples text must be one statement per line and parse back to the same quads.
+fn statements() {
+    use sophia_api::dataset::{Dataset, MutableDataset};
+    use sophia_api::quad::{Quad, Spog};
+    use sophia_api::serializer::{QuadSerializer, Stringifier, TripleSerializer};
+    use sophia_api::source::{QuadSource, TripleSource};
+    use sophia_api::term::{BnodeId, IriRef, LanguageTag};
+    use sophia_turtle::parser::{nq, nt};
+    use sophia_turtle::serializer::{nq::NqSerializer, nt::NtSerializer};
+    type T = SimpleTerm<'static>;
+    let iri = |s: &str| -> T { SimpleTerm::Iri(IriRef::new_unchecked(s.to_string().into())) };
+    let lit = |l: &str, dt: &str| -> T { SimpleTerm::LiteralDatatype(l.to_string().into(), IriRef::new_unchecked(dt.to_string().into())) };
+    let lang = |l: &str, t: &str| -> T { SimpleTerm::LiteralLanguage(l.to_string().into(), LanguageTag::new_unchecked(t.to_string().into())) };
+    let bn = |s: &str| -> T { SimpleTerm::BlankNode(BnodeId::new_unchecked(s.to_string().into())) };
+    let xs = "http://www.w3.org/2001/XMLSchema#";
+    let mut objs: Vec<T> = vec![
+        iri("http://example.org/a"), iri("x:a#frag"), bn("b1"), bn("a.b-c"),
+        lit("x", &format!("{}string", xs)), lit("", &format!("{}string", xs)), lit("x", &format!("{}integer", xs)), lit("x", &format!("{}token", xs)),
+        lit("x", "https://www.w3.org/2001/XMLSchema#string"), lit("x", "http://www.w3.org/2001/XMLSchema#strin"), lit("x", "http://www.w3.org/2001/XMLSchema#String"),
+        lit("x", "urn:x://www.w3.org/2001/XMLSchema#string"), lit("x", "http://example.org/ns#string"),
+        lang("x", "en"), lang("", "en"), lang("x", "EN-us"), lit("a\"b\\c\nd", &format!("{}string", xs)), lit("é😀", "x:d"),
+    ];
+    let q1 = SimpleTerm::Triple(Box::new([bn("b1"), iri("x:p"), lit("x", "https://www.w3.org/2001/XMLSchema#string")]));
+    let q2 = SimpleTerm::Triple(Box::new([q1.clone(), iri("x:p"), lang("x", "en")]));
+    objs.push(q1.clone());
+    objs.push(q2.clone());
+    let subjs: Vec<T> = vec![iri("http://example.org/s"), bn("b2"), q1.clone(), q2.clone()];
+    let graphs: Vec<Option<T>> = vec![None, Some(iri("http://example.org/g")), Some(bn("g1"))];
+    let mut n = 0;
+    for s in &subjs { for o in &objs { for g in &graphs {
+        n += 1;
+        let quad: Spog<T> = ([s.clone(), iri("x:p"), o.clone()], g.clone());
+        let d: Vec<Spog<T>> = vec![quad.clone()];
+        let txt = NqSerializer::new_stringifier().serialize_dataset(&d).unwrap().to_string();
+        if txt.matches('\n').count() != 1 || !txt.ends_with('\n') { println!("{{\"mismatch\":\"N-Quads output is not one statement per line\",\"quad\":\"{:?}\",\"text\":{:?}}}", quad, txt); std::process::exit(1); }
+        let back: Result<Vec<Spog<T>>, _> = nq::parse_str(&txt).collect_quads();
+        let same = match &back { Ok(v) => v.len() == 1 && Quad::eq(&v[0], quad.clone()), Err(_) => false };
+        if !same { println!("{{\"mismatch\":\"N-Quads round trip changes the quad\",\"quad\":\"{:?}\",\"text\":{:?},\"parsed\":\"{:?}\"}}", quad, txt, back.map_err(|e| e.to_string())); std::process::exit(1); }
+        if g.is_none() {
+            let t3: Vec<[T; 3]> = vec![quad.0.clone()];
+            let txt = NtSerializer::new_stringifier().serialize_graph(&t3).unwrap().to_string();
+            let back: Result<Vec<[T; 3]>, _> = nt::parse_str(&txt).collect_triples();
+            let same = match &back { Ok(v) => v.len() == 1 && sophia_api::triple::Triple::eq(&v[0], t3[0].clone()), Err(_) => false };
+            if !same || txt.matches('\n').count() != 1 { println!("{{\"mismatch\":\"N-Triples round trip changes the triple\",\"triple\":\"{:?}\",\"text\":{:?}}}", t3[0], txt); std::process::exit(1); }
+        }
+    }}}
+    println!("{{\"ok\":true,\"mode\":\"stmts\",\"cases\":{}}}", n);
+}
+
 fn main() {
     let mode = std::env::args().nth(1).unwrap_or_else(|| "enum".into());
+    if mode == "stmts" { statements(); return; }
     let seed: u64 = std::env::args().nth(2).and_then(|s| s.parse().ok()).unwrap_or(0);
     let mut dom = domain(4);
     // seeded random strings
